@@ -45,11 +45,11 @@ def main():
             "source_commits": ["2eb83aa", "3e25d7b"],
             "add_only": True,
         },
-        "engines": [{"name": "rocq-proof+correspondence", "path": "/verif/coq, /verif/harness, /verif/lib/vf.py",
+        "engines": [{"name": "rocq-proof+correspondence", "path": "/verif/coq, /verif/translator, /verif/harness, /verif/lib/vf.py",
                      "serves_properties": sorted(CHECKS),
-                     "kind_free_text": "Coq 8.16.1 development (models, proofs, property theorems) + Rust differential harness evaluated against the model with vm_compute"}],
+                     "kind_free_text": "Coq 8.16.1 development (models, proofs, property theorems) + 16 source translators regenerating coq/Gen/*.v from the Rust text on every run (agreement theorems Props/Gen*.v) + Rust differential harness evaluated against the model with vm_compute (implementation, model and specification lines per case)"}],
         "checks": checks,
-        "notes": "Every check: builds the harness against /repo's working tree, regenerates coq/Gen, rebuilds the property's proof cone with make (full .vo), checks Print Assumptions and forbidden tokens, then runs the correspondence streams. See DESIGN.md.",
+        "notes": "Every check: builds the harness against /repo's working tree, regenerates coq/Gen from the Rust sources (translators, fail closed), rebuilds the property's proof cone with make (full .vo), checks Print Assumptions and forbidden tokens, then runs the correspondence streams. See DESIGN.md.",
         "not_applicable": na,
     }
     json.dump(m, open(os.path.join(ROOT, "MANIFEST.json"), "w"), indent=1)
